@@ -1315,7 +1315,6 @@ func (txn *KVTxn) filterAggressiveLockedKeys(lockCtx *tikv.LockCtx, allKeys [][]
 				// This should be an unreachable path.
 				return nil, errors.Errorf("Txn %v Retrying aggressive locking with ForUpdateTS (%v) less than previous LockedWithConflictTS (%v)", txn.StartTS(), lockCtx.ForUpdateTS, lastResult.Value.LockedWithConflictTS)
 			}
-			delete(txn.aggressiveLockingContext.lastRetryUnnecessaryLocks, keyStr)
 			if canTrySkip &&
 				lastResult.trySkipLockingOnRetry(lockCtx.ReturnValues, lockCtx.CheckExistence) &&
 				!txn.mayAggressiveLockingLastLockedKeysExpire() {
@@ -1324,9 +1323,12 @@ func (txn *KVTxn) filterAggressiveLockedKeys(lockCtx *tikv.LockCtx, allKeys [][]
 				if lockCtx.Values != nil {
 					lockCtx.Values[keyStr] = lastResult.Value
 				}
+				delete(txn.aggressiveLockingContext.lastRetryUnnecessaryLocks, keyStr)
 				txn.aggressiveLockingContext.currentLockedKeys[keyStr] = lastResult
 				continue
 			}
+			// The key is locked again by the request. It stays in lastRetryUnnecessaryLocks until that succeeds:
+			// if the request fails or doesn't lock the key, the lock of the last attempt still needs to be released.
 		}
 		keys = append(keys, k)
 	}
@@ -1715,6 +1717,7 @@ func (txn *KVTxn) lockKeys(ctx context.Context, lockCtx *tikv.LockCtx, fn func()
 				err = errors.Errorf("pessimistic lock request to key %v returns LockedWithConflictTS(%v) not greater than requested ForUpdateTS(%v)",
 					redact.Key(key), val.LockedWithConflictTS, lockCtx.ForUpdateTS)
 			}
+			delete(txn.aggressiveLockingContext.lastRetryUnnecessaryLocks, keyStr)
 			txn.aggressiveLockingContext.currentLockedKeys[keyStr] = tempLockBufferEntry{
 				HasReturnValue:        lockCtx.ReturnValues,
 				HasCheckExistence:     lockCtx.CheckExistence,
